@@ -142,8 +142,10 @@ impl CgtServer {
                 .map_err(|e| Self::format_json_parse_error(e, trimmed));
         }
 
-        // Fall back to DSL parsing
-        self.parse_dsl(trimmed)
+        // Fall back to DSL parsing. The DSL reader gets the text as given: it copes with blank
+        // lines itself, reports error positions relative to what the client sent, and decides
+        // what counts as white space (trimming here accepted text the CLI rejects).
+        self.parse_dsl(input)
     }
 
     /// Format a JSON parse error with helpful context.
